@@ -133,6 +133,8 @@ def proj_single_pop(pop: arch.MIOPopulation, goals, ident, hrank) -> dict:
 
 
 def _hrank_p2(h: float) -> int:
+    if 0.5 < h < 1.0:
+        return 3  # h just below 1.0: a tiny positive fitness must not count as covered
     return H_RANK[h]
 
 
